@@ -2,7 +2,9 @@ mod core;
 mod eng_map;
 mod eng_mvreg;
 mod eng_orswot;
+mod eng_simple;
 mod tree;
+mod vectors;
 
 use crate::core::*;
 use serde_json::{json, Value};
@@ -61,6 +63,30 @@ fn replay<E: Engine>(dump: &str, out: &str, known: &Known, opts: ReplayOpts) {
     w.write_all(serde_json::to_string_pretty(&o).unwrap().as_bytes()).unwrap();
 }
 
+fn vectors(kind: &str, dump: &str, out: &str, known: &Known) {
+    let f = std::fs::File::open(dump).expect("dump file");
+    let rd = BufReader::with_capacity(1 << 20, f);
+    let mut rep = Report::default();
+    for line in rd.lines() {
+        let line = line.expect("read");
+        if !line.starts_with("<<\"E\"") {
+            continue;
+        }
+        match parse_dump_line(&line) {
+            Some(v) => match kind {
+                "clocks" => vectors::clocks_line(&v, &mut rep, known),
+                _ => panic!("unknown vector engine"),
+            },
+            None => rep.errors.push("unparsable line".into()),
+        }
+    }
+    let mut o = rep.to_json();
+    o["engine"] = json!(kind);
+    o["conv_classes"] = json!(0);
+    let mut w = std::fs::File::create(out).expect("out file");
+    w.write_all(serde_json::to_string_pretty(&o).unwrap().as_bytes()).unwrap();
+}
+
 fn flagval(flags: &[&str], name: &str) -> usize {
     flags.iter().position(|f| *f == name).and_then(|i| flags.get(i + 1)).and_then(|v| v.parse().ok()).unwrap_or(0)
 }
@@ -88,10 +114,16 @@ fn main() {
                 max_samples: 5,
                 m: flagval(&flags, "--m"),
                 k: flagval(&flags, "--k"),
+                misuse: flags.contains(&"--misuse"),
             };
             match engine.as_str() {
                 "orswot" => replay::<eng_orswot::OrswotEng>(dump, out, &known, opts),
                 "mvreg" => replay::<eng_mvreg::MVRegEng>(dump, out, &known, opts),
+                "simple" => {
+                    let i = flags.iter().position(|f| *f == "--kind").expect("--kind");
+                    eng_simple::set_kind(flags[i + 1]);
+                    replay::<eng_simple::SimpleEng>(dump, out, &known, opts)
+                }
                 "map_mv" => replay::<eng_map::MapEng<crdts::MVReg<u8, u8>>>(dump, out, &known, opts),
                 "map_or" => replay::<eng_map::MapEng<crdts::Orswot<u8, u8>>>(dump, out, &known, opts),
                 "map_map_mv" => replay::<eng_map::MapEng<crdts::Map<u8, crdts::MVReg<u8, u8>, u8>>>(dump, out, &known, opts),
@@ -101,6 +133,10 @@ fn main() {
                     std::process::exit(2);
                 }
             }
+        }
+        "vectors" => {
+            let known = Known::load(&args[5]);
+            vectors(&args[2], &args[3], &args[4], &known);
         }
         _ => {
             eprintln!("unknown subcommand");
